@@ -21,9 +21,10 @@ import (
 )
 
 const Spec = `{"openapi":"3.0.3","info":{"title":"t","version":"1"},"servers":[{"url":"http://h.example"},{"url":"http://beta.example/v1"}],"paths":{"/r":{
+ "parameters":[{"name":"X-A","in":"header","schema":{"type":"string"}},{"name":"X-B","in":"header","schema":{"type":"string"}},{"name":"X-C","in":"header","schema":{"type":"string"}}],
  "get":{"parameters":[{"name":"q","in":"query","required":true,"schema":{"type":"string","pattern":"^[a-z]+[0-9]$"}}],
         "responses":{"200":{"description":"ok","content":{"application/json":{"schema":{"$ref":"#/components/schemas/Out"}}}}}},
- "post":{"requestBody":{"required":true,"content":{"application/json":{"schema":{"$ref":"#/components/schemas/In"}}}},
+ "post":{"parameters":[{"name":"X-Post","in":"header","schema":{"type":"string","pattern":"^[a-z]*$"}}],"requestBody":{"required":true,"content":{"application/json":{"schema":{"$ref":"#/components/schemas/In"}}}},
         "responses":{"201":{"description":"created"}}}}},
  "components":{"schemas":{
   "In":{"type":"object","required":["name"],"properties":{"name":{"type":"string","pattern":"^[a-z]+$"},"tags":{"type":"array","uniqueItems":true,"items":{"type":"string"}},"kind":{"type":"string","default":"plain"},"n":{"type":"integer","default":3}}},
